@@ -438,21 +438,33 @@ def native_renamed_use():
 
 
 def native_keyword_argument():
+    """argument keywords (plain and type-bound calls, blanks around `=`, on a continuation line) belong to the dummy
+    argument of the procedure called; keywords of I/O statements and `==` comparisons are left alone"""
     from replay.harness import Workspace, session
-    text = ("program p\n  integer :: x\n  x = 1\n  call foo(x=x)\ncontains\n  subroutine foo(x)\n    integer :: x\n    x = 2\n"
-            "  end subroutine foo\nend program p\n")
+    text = ("module m\n  type t\n  contains\n    procedure :: go\n  end type t\ncontains\n  subroutine go(self, x, y)\n    class(t) :: self\n"
+            "    integer :: x\n    integer, optional :: y\n    x = 2\n  end subroutine go\n  subroutine caller()\n    integer :: x, y, u\n"
+            "    type(t) :: o\n    x = 1\n    call go(o, x=x, y = y)\n    call o%go(x = x, &\n      y=y)\n    write(unit=u, fmt=*) x\n"
+            "    if (x == y) x = y\n  end subroutine caller\nend module m\n")
+    L = text.split("\n")
+    want = {
+        "caller's x": ((13, L[13].index("x")), [(13, 15), (15, 4), (16, 17), (17, 18), (19, 25), (20, 8), (20, 16)]),
+        "dummy x of go": ((8, L[8].index("x")), [(6, 22), (8, 15), (10, 4), (16, 15), (17, 14)]),
+        "dummy y of go": ((9, L[9].index("y")), [(6, 25), (9, 25), (16, 20), (18, 6)]),
+        "caller's u": ((13, L[13].index("u")), [(13, 21), (19, 15)]),
+    }
     ws = Workspace({"k.f90": text})
     try:
         uri = ws.uri("k.f90")
-        srv, out = session(ws, [
-            {"jsonrpc": "2.0", "method": "textDocument/didOpen", "params": {"textDocument": {"uri": uri}}},
-            {"jsonrpc": "2.0", "id": 1, "method": "textDocument/references",
-             "params": {"textDocument": {"uri": uri}, "position": {"line": 1, "character": 13}, "context": {"includeDeclaration": True}}}])
-        got = sorted((x["range"]["start"]["line"], x["range"]["start"]["character"])
-                     for m in out if m.get("id") == 1 for x in (m.get("result") or []))
-        want = [(1, 13), (2, 2), (3, 13)]
-        if got != want:
-            return {"source": text, "entity": "the program's variable x", "expected": want, "returned": got}
+        msgs = [{"jsonrpc": "2.0", "method": "textDocument/didOpen", "params": {"textDocument": {"uri": uri}}}]
+        for k, (name, ((ln, ch), _)) in enumerate(want.items()):
+            msgs.append({"jsonrpc": "2.0", "id": k + 1, "method": "textDocument/references",
+                         "params": {"textDocument": {"uri": uri}, "position": {"line": ln, "character": ch}, "context": {"includeDeclaration": True}}})
+        srv, out = session(ws, msgs)
+        for k, (name, (_, exp)) in enumerate(want.items()):
+            got = sorted((x["range"]["start"]["line"], x["range"]["start"]["character"])
+                         for m in out if m.get("id") == k + 1 for x in (m.get("result") or []))
+            if got != sorted(exp):
+                return {"source": text, "entity": name, "expected": sorted(exp), "returned": got}
         return None
     finally:
         ws.close()
